@@ -123,12 +123,9 @@ def queue_discipline(analysis: Analysis, res: RuleResult) -> None:
     res.add("C16-R4", "transport:SyncTransport.send / senders are serialised under the transport lock", ok, common.where(analysis, info, info.node), "with self._lock: super().send(message)")
 
 
-def run(analysis: Analysis, tier: str) -> RuleResult:
-    res = RuleResult(PROP)
-    res.explanation = [
-        "Discipline clauses that make every interleaving of a sender with connection loss / disconnect safe: R1 the fields Transport.protocol and <protocol>.transport are written without the sender's lock (racy); R2 on every abstract path of Transport.send and Transport.disconnect each racy attribute is loaded at most once (snapshot into locals), including inside the error handler; R3 at most one write per path, its OSError caught, exactly one close + reconnect, no retry, nothing escapes; R4 the job queue is append / popleft only with a single consumer and senders serialised.",
-        "Real interleavings, partial socket writes and fairness are not decided.",
-    ]
+def send_discipline(analysis: Analysis, res: RuleResult):
+    """R1-R3: writers of the shared connection fields, snapshot discipline and drop-or-write-once on every path
+    of send / disconnect.  (Also run by C01 as a lemma: a re-read racy field is an AttributeError in the pump.)"""
     ws = writers(analysis)
     if len(ws) < 3:
         raise AnalysisError(f"C16-R1: only {len(ws)} writers of the shared connection fields found")
@@ -172,6 +169,16 @@ def run(analysis: Analysis, tier: str) -> RuleResult:
         if q.endswith(".send"):
             res.add("C16-R3", f"{q} / writes the command when a connection exists", saw_write, "mysensors/transport.py", "a path writes", context=summ["flavour"])
             res.add("C16-R3", f"{q} / a failing write is handled", saw_handler, "mysensors/transport.py", "OSError handler present", context=summ["flavour"])
+    return ws
+
+
+def run(analysis: Analysis, tier: str) -> RuleResult:
+    res = RuleResult(PROP)
+    res.explanation = [
+        "Discipline clauses that make every interleaving of a sender with connection loss / disconnect safe: R1 the fields Transport.protocol and <protocol>.transport are written without the sender's lock (racy); R2 on every abstract path of Transport.send and Transport.disconnect each racy attribute is loaded at most once (snapshot into locals), including inside the error handler; R3 at most one write per path, its OSError caught, exactly one close + reconnect, no retry, nothing escapes; R4 the job queue is append / popleft only with a single consumer and senders serialised.",
+        "Real interleavings, partial socket writes and fairness are not decided.",
+    ]
+    ws = send_discipline(analysis, res)
     queue_discipline(analysis, res)
     res.units = {"functions": ["transport:Transport.send", "transport:Transport.disconnect", "transport:SyncTransport.send", "task:Tasks.run_job"], "writers_of_shared_fields": len(ws), "source_digest": analysis.p.digest()}
     res.not_decided = ["actual interleavings", "completeness of a write on a non-blocking socket", "fairness"]
